@@ -815,8 +815,24 @@ func (g *Gen) scanLoopPass(li *loopInfo, st *State, pass int) {
 			case *ssa.MakeMap, *ssa.MakeChan, *ssa.MakeClosure:
 				li.allocs = true
 				g.mapKinds(x.(ssa.Value).Type(), func(k string) { kinds[k] = true })
+			case *ssa.Next:
+				if rng, ok := x.Iter.(*ssa.Range); ok {
+					if m, isMap := rng.X.Type().Underlying().(*types.Map); isMap {
+						if loc, have := g.mrSeen[rng]; have {
+							sk := g.seenKind(m)
+							kinds[sk] = true
+							if pass == 2 {
+								addLoc(sk, loc)
+							}
+						}
+					}
+				}
 			case *ssa.MapUpdate:
 				g.mapKinds(x.Map.Type(), func(k string) {
+					if li.mapIns == nil {
+						li.mapIns = map[string]bool{}
+					}
+					li.mapIns[k] = true
 					kinds[k] = true
 					if hv, ok := g.headEval(li, st, x.Map); ok && pass == 2 {
 						addLoc(k, hv.T)
@@ -934,6 +950,12 @@ func (g *Gen) scanCall(li *loopInfo, st *State, ins ssa.CallInstruction, kinds m
 		}
 		for _, kk := range k {
 			kinds[kk] = true
+			if strings.HasPrefix(kk, "mapdom_") {
+				if li.mapIns == nil {
+					li.mapIns = map[string]bool{}
+				}
+				li.mapIns[kk] = true
+			}
 		}
 		for i, kk := range k {
 			if loc != nil && loc[i] != "" {
